@@ -149,6 +149,30 @@ func creationKillScenario(c *sup.Ctx, r *rng.R) {
 	reportCrash(c, run, &o)
 }
 
+// massPurgeScenario: PurgeTombstones over 300-1100 tombstones, killed at a transaction hook inside the call.
+func massPurgeScenario(c *sup.Ctx, r *rng.R) {
+	tombs := []int{300, 520, 700, 1100}[c.Local%4]
+	point := []string{"txn.postcommit", "txn.postcommit", "txn.precommit"}[(c.Local/4)%3]
+	nth := 1 + (c.Local/12)%3
+	res := crash.MassPurge(c.Tmp, tombs, point, nth, 2-2*(c.Local%2))
+	c.Count("purges_interrupted_by_a_kill", 1)
+	c.Cell(fmt.Sprintf("mass-purge|%d|%s#%d|%s", tombs, point, nth, ifStr(res.Acked, "acknowledged", "killed-inside")))
+	if res.Incon != "" {
+		c.Incon(res.Incon)
+		return
+	}
+	if res.Left == 0 {
+		c.Count("interrupted_purges_found_applied", 1)
+	} else {
+		c.Count("interrupted_purges_found_not_applied", 1)
+	}
+	if res.Problem != "" {
+		k, text := splitKind(res.Problem)
+		c.Viol([]string{"C10"}, "mass-purge|"+k, text, res)
+	}
+	c.Sample(res)
+}
+
 func straceKillScenario(c *sup.Ctx, r *rng.R) {
 	hist := uint64(c.Local % 12)
 	// opening the bucket (schema, collections, design document) takes ~120 pwrite64 calls spread over several
@@ -252,6 +276,7 @@ func init() {
 			crashPart("pwrite-kills", 144, 6000, straceKillScenario),
 			crashPart("pwrite-kills-in-drop-cycles", 160, 1600, dropCycleKillScenario),
 			crashPart("pwrite-kills-during-creation", 130, 520, creationKillScenario),
+			crashPart("kills-inside-a-large-purge", 12, 72, massPurgeScenario),
 			crashPart("controls", 45, 300, controlScenario),
 			crashPart("open-fails-while-locked", 6, 40, lockedOpenScenario),
 			crashPart("reopen-clock", 40, 1200, reopenClockScenario),
